@@ -190,8 +190,40 @@ pub fn float_kernel_f32<S: Src>(s: &mut S) {
     vcover!(want == Orientation::Clockwise, "clockwise");
 }
 
+/// signed zeros: every zero coordinate of a simple ring carries a symbolic sign; -0.0 == +0.0, so
+/// the ring is the same point set and winding / point location must not change
+pub fn winding_signed_zero<S: Src>(s: &mut S, n: i8) {
+    let (a, b, c, d) = (gp(s, n), gp(s, n), gp(s, n), gp(s, n));
+    let q = gp(s, n);
+    let pts = [a, b, c, d, a];
+    vassume!(ring_is_simple(&pts));
+    let mut z = |v: W| -> f64 {
+        let neg = s.bool();
+        if v == 0 && neg {
+            -0.0
+        } else {
+            v as f64
+        }
+    };
+    let cs = [coord! {x: z(a.0), y: z(a.1)}, coord! {x: z(b.0), y: z(b.1)}, coord! {x: z(c.0), y: z(c.1)}, coord! {x: z(d.0), y: z(d.1)}];
+    let ring = LineString::new(vec![cs[0], cs[1], cs[2], cs[3], cs[0]]);
+    let a2 = twice_area(&pts);
+    let want = if a2 > 0 { WindingOrder::CounterClockwise } else { WindingOrder::Clockwise };
+    assert!(ring.winding_order() == Some(want), "winding_order of a ring with a negative-zero coordinate differs from the sign of its exact area");
+    let qc: Coord<f64> = coord! {x: z(q.0), y: z(q.1)};
+    let wantp = match ring_pos(q, &pts) {
+        Pos::Interior => CoordPos::Inside,
+        Pos::Boundary => CoordPos::OnBoundary,
+        Pos::Exterior => CoordPos::Outside,
+    };
+    assert!(coord_pos_relative_to_ring(qc, &ring) == wantp, "coord_pos_relative_to_ring changes with the sign of a zero coordinate");
+    vcover!(cs[3].x == 0.0 && cs[3].x.is_sign_negative() && cs[0].x == 0.0 && !cs[0].x.is_sign_negative(), "a -0.0 abscissa next to a +0.0 abscissa on the leftmost edge");
+    core::mem::forget(ring);
+}
+
 harnesses! {
     fn c03_orient_int_g8(s) { orient_int(s) }
+    #[kani::unwind(8)] #[kani::stub(robust::orient2d, crate::stubs::orient2d_small)] fn c03_signed_zero_g1(s) { winding_signed_zero(s, 1) }
 
     #[kani::stub(robust::orient2d, crate::stubs::orient2d_exact)] fn c03_kernel_f64_fr0(s) { float_kernel(s, 0) }
     #[kani::stub(robust::orient2d, crate::stubs::orient2d_exact)] fn c03_kernel_f64_fr1(s) { float_kernel(s, 1) }
